@@ -62,14 +62,14 @@ INVALID = ["str:2021-02-29", "tuple:2020,13", "int:0", "str:2020-3", "other", "s
            "str:2020-00", "int:10000", "str:abcd", "str:2020-01-01-01", "tuple:2020,0"]
 
 
-def gen_history(rng, length):
+def gen_history(rng, length, force=None):
     base = rng.choice(BASES)
     kind = rng.choice(["none", "year", "month", "day"])
     ops = _money.setup(ALL) + [["mc_new", "c", base]]
     y0, m0, d0 = rand_date(rng)
     ops.append(["mc_today", f"{y0}-{m0}-{d0}"])
     dates = [rand_date(rng) for _ in range(3)] + [(y0, m0, d0)]
-    if rng.random() < .35:
+    if rng.random() < .35 or force == "badspec-opening":
         # opening: the very first update is rejected because of one of its
         # rate specs; the converter must still be unbound, so an update with
         # another kind of validity is accepted afterwards
@@ -96,6 +96,18 @@ def gen_history(rng, length):
         ops.append(["mc_rate", "c", x, z, ds, _money.MODE])
         ops.append(["mc_rate", "c", z, x, ds, _money.MODE])
         ops.append(["mc_call", "c", "1000", x, z, ds, _money.MODE])
+    if rng.random() < .3 or force == "unknown-code":
+        # an update naming a term currency by the ISO code of a currency that
+        # has NOT been registered: rejected, and no currency appears
+        y, m, d = rng.choice(dates)
+        code = rng.choice(["NOK", "DKK", "PLN"])
+        good = f"{rng.choice([t for t in TERMS if t != base])},dec:{rat(Fraction(rng.randint(1, 999), 100))},int:1"
+        specs = rng.choice([f"?{code},dec:3/2,int:1", f"{good};?{code},dec:3/2,int:1"])
+        ops.append(["observe"])
+        ops.append(["mc_update", "c", spell(rng, kind, y, m, d), specs, rng.choice(MODES)])
+        ops.append(["observe"])
+        ops.append(["mc_dump", "c"])
+        ops.append(["cur_reg", code])
     lookups = []
     for _ in range(length):
         r = rng.random()
@@ -135,9 +147,10 @@ def gen_history(rng, length):
     return {"ops": ops, "fork": True, "base": base, "tags": ["history:" + kind]}
 
 
-def gen_cases(rng, tier):
+def gen_cases(rng, tier, rejections=False):
     n = 120 if tier == "thorough" else 20
-    return [gen_history(rng, rng.randint(8, 40)) for _ in range(n)]
+    force = [None, "badspec-opening", "unknown-code"] if rejections else [None]
+    return [gen_history(rng, rng.randint(8, 40), force[i % len(force)]) for i in range(n)]
 
 
 def search_cases(rng, focus, broken):
@@ -201,10 +214,21 @@ def oracle(case, impl):
     base = case["base"]
     table, kind = {}, None
     today = (2000, 1, 1)
+    prev_observe = None
     for o, out in zip(case["ops"], impl):
+        if o[0] == "mc_update" and prev_observe is not None:
+            # only a REJECTED update in between makes the next dump comparable
+            prev_observe[1] = out.startswith("err ")
+        if o[0] == "cur_reg" and prev_observe is not None:
+            prev_observe = None
         if o[0] in ("load_money", "cur_reg", "mc_new"):
             if not out.startswith("ok"):
                 fails.append({"site": "setup", "msg": f"{o} -> {out}"})
+        elif o[0] == "observe":
+            if prev_observe is not None and out != prev_observe[0] and prev_observe[1]:
+                fails.append({"site": "conv:update-trace", "msg":
+                              f"a rejected update changed the directories: {out[:200]}"})
+            prev_observe = [out, False]
         elif o[0] == "mc_today":
             today = tuple(int(x) for x in o[1].split("-"))
         elif o[0] == "mc_update":
@@ -215,7 +239,7 @@ def oracle(case, impl):
                 try:
                     for sp in o[3].split(";"):
                         cur, tat, umt = sp.split(",")
-                        if tat in ("bad", "none"):
+                        if tat in ("bad", "none") or cur.startswith("?"):
                             raise RateRejected("x")
                         new[(key, cur)] = spec_rate(base, parse_rat(umt.partition(":")[2]), cur,
                                                     _money.ta_value(tat), o[4])
